@@ -968,6 +968,19 @@ class Engine:
         if it[0] == "call" and it[1] == ("ext", "range") and len(it[2]) == 1 and is_const(it[2][0]) \
                 and isinstance(it[2][0][1], int) and it[2][0][1] <= 4:
             return [const(i) for i in range(it[2][0][1])]
+        if it[0] == "call" and it[1] == ("ext", "enumerate") and 1 <= len(it[2]) <= 2:
+            inner = self._iter_elems(it[2][0])
+            start = it[2][1] if len(it[2]) == 2 else dict(it[3]).get("start", const(0))
+            if inner is not None and is_const(start) and isinstance(start[1], int):
+                return [("tuple", (const(i + start[1]), x)) for i, x in enumerate(inner)]
+        if it[0] == "call" and it[1] == ("ext", "zip") and it[2] and not it[3]:
+            inners = [self._iter_elems(x) for x in it[2]]
+            if all(x is not None for x in inners):
+                return [("tuple", tuple(xs)) for xs in zip(*inners)]
+        if it[0] == "call" and it[1] == ("ext", "reversed") and len(it[2]) == 1 and not it[3]:
+            inner = self._iter_elems(it[2][0])
+            if inner is not None:
+                return list(reversed(inner))
         return None
 
     def _run_for(self, fi, stmt, st, depth):
@@ -1317,6 +1330,9 @@ class Engine:
             return
         if isinstance(tg, (ast.Tuple, ast.List)):
             n = len(tg.elts)
+            ntv = self.namedtuple_values(v)
+            if ntv is not None:
+                v = ("tuple", tuple(ntv))
             if v[0] in ("tuple", "list") and len(v[1]) == n and not any(e[0] == "starred" for e in v[1]):
                 parts = list(v[1])
             else:
@@ -1478,6 +1494,9 @@ class Engine:
                     return (base[0], tuple(base[1][(lo[1] if lo else None):(hi[1] if hi else None)]))
                 return ("slice", base, lo, hi)
             idx = ev(node.slice)
+            ntv = self.namedtuple_values(base)
+            if ntv is not None:
+                base = ("tuple", tuple(ntv))
             if base[0] in ("tuple", "list") and is_const(idx) and isinstance(idx[1], int) \
                     and -len(base[1]) <= idx[1] < len(base[1]) and not any(e[0] == "starred" for e in base[1]):
                 return base[1][idx[1]]
@@ -1775,6 +1794,24 @@ class Engine:
         except (_RaiseSignal, AnalysisError):
             return ("unknown", ("default", clsqual))
 
+    def namedtuple_values(self, tm) -> t.Optional[t.List[tuple]]:
+        """field values, in field order, of a constructed NamedTuple instance term (defaults filled in)"""
+        if tm[0] != "new":
+            return None
+        ci = self.prog.classes.get(tm[1])
+        if ci is None or not getattr(ci, "is_namedtuple", False):
+            return None
+        given = dict(tm[2])
+        out = []
+        for f in self.prog.all_fields(tm[1]):
+            if f.name in given:
+                out.append(given[f.name])
+            elif f.default is not None:
+                out.append(self._eval_in_class(f.default, tm[1]))
+            else:
+                return None
+        return out
+
     def _eval_in_module(self, node, mi):
         fake = FuncInfo.__new__(FuncInfo)
         fake.qual = mi.short + ".<module>"
@@ -1883,6 +1920,8 @@ class Engine:
         args = []
         for a in node.args:
             x = self._eval(a, s, fi, depth, ch)
+            if x[0] == "starred" and self.namedtuple_values(x[1]) is not None:
+                x = ("starred", ("tuple", tuple(self.namedtuple_values(x[1]))))
             if x[0] == "starred" and x[1][0] in ("tuple", "list") and not any(e[0] == "starred" for e in x[1][1]):
                 args.extend(x[1][1])
             else:
@@ -1919,6 +1958,15 @@ class Engine:
 
     def _call_function(self, f, args, kwargs, site, node, s: _State, fi: FuncInfo, depth, ch,
                        awaited=False, prop=False):
+        if f[0] == "attr" and f[2] == "_asdict" and not args and not kwargs:
+            ntv = self.namedtuple_values(f[1])
+            if ntv is not None:
+                names = [fl.name for fl in self.prog.all_fields(f[1][1])]
+                return ("dict", tuple((const(n), v) for n, v in zip(names, ntv)))
+        # calling a functools.partial object calls the wrapped callable with the bound arguments first
+        if f[0] == "call" and f[1] == ("ext", "functools.partial") and f[2]:
+            return self._call_function(f[2][0], tuple(f[2][1:]) + tuple(args), tuple(f[3]) + tuple(kwargs), site, node, s, fi,
+                                       depth, ch, awaited=awaited, prop=prop)
         # --- special forms that are pure term rewrites
         if f[0] == "ext":
             name = f[1]
